@@ -573,3 +573,26 @@ Example generic_example :
   r_ok rc = false /\ cnt = [] /\ store s' kA = None /\ store s' (2002%N, 2%N) = None /\
   bal s' 5%N = 0 /\ bal s' 1%N = 0 /\ bal s' 1000%N = 50000 /\ nonce s' 1%N = 42%N.
 Proof. vm_compute. repeat split; reflexivity. Qed.
+
+(** the boolean predicates the judge evaluates on implementation traces, as propositions *)
+Definition p_store (k : xcase) : Prop :=
+  (forall x, In x (changed_keys k) -> exists y, In y (succ_keys k) /\ x = y) /\ xc_other k = 0%N.
+
+Lemma p_store_b_spec k : p_store_b k = true <-> p_store k.
+Proof.
+  unfold p_store_b, p_store. rewrite andb_true_iff, forallb_forall, N.eqb_eq. split; intros [H1 H2]; (split; [|exact H2]).
+  - intros x Hx. specialize (H1 x Hx). apply existsb_exists in H1. destruct H1 as [y [Hy Hk]].
+    exists y. split; [exact Hy | apply key_eqb_eq; exact Hk].
+  - intros x Hx. destruct (H1 x Hx) as [y [Hy ->]]. apply existsb_exists. exists y. split; [exact Hy | apply key_eqb_refl].
+Qed.
+
+Definition p_counter (k : xcase) : Prop :=
+  forall x : counter_entry, In x (xc_ocnt k) ->
+    snd (fst (snd x)) = true -> nth (N.to_nat (fst (fst (snd x)))) (xc_recs k) false = true.
+
+Lemma p_counter_b_spec k : p_counter_b k = true <-> p_counter k.
+Proof.
+  unfold p_counter_b, p_counter. rewrite forallb_forall. split; intros H x Hx.
+  - intro Hv. specialize (H x Hx). rewrite Hv in H. exact H.
+  - specialize (H x Hx). destruct (snd (fst (snd x))); [apply H; reflexivity | reflexivity].
+Qed.
